@@ -90,5 +90,16 @@ class BlockComment(base.RawTokenModel, _value_properties.RWValueWithIndent[str],
             for line in _splitlines(value)
         )
 
+    def reattach(
+            self,
+            token_store: base.TokenStore,
+            token_transformer: base.TokenTransformer = base.IDENTITY_TOKEN_TRANSFORMER,
+    ) -> Self:
+        # A comment is re-attached when it becomes (or stays) a child of a model: that model owns it now, whatever
+        # the flag said before (e.g. a deep copy of an unclaimed comment assigned as someone's leading comment).
+        token = super().reattach(token_store, token_transformer)
+        token.claimed = True
+        return token
+
     def _clone(self: 'BlockComment') -> 'BlockComment':
         return type(self)(self.raw_text, self.indent, self.value, claimed=self.claimed)
